@@ -653,6 +653,8 @@ def _stress(ctx, part, info):
         cls = ("concurrent-writes-on-a-sink's-writer" if "concurrent Write" in x else
                "protected-plaintext-in-a-sink-behind-encrypt" if "protected field" in x or "redaction marker" in x else
                "plain-sink-does-not-show-its-pipeline's-view" if "does not show the plaintext" in x else
+               "pipeline-outcome-depends-on-the-other-pipelines-of-the-shared-event" if "this pipeline's sink" in x or "did not report sink" in x or "rejects every event holds" in x else
+               "rebound-file-sinks-not-all-reopened" if "rebind-reopen:" in x else
                "file-sink-loses-or-duplicates-acknowledged-events" if "acknowledged events" in x else
                "sink-output-not-a-sequence-of-JSON-documents")
         if cls in seen_classes:
